@@ -1057,6 +1057,14 @@ class Channel(ClosingContextManager):
             self._log(
                 ERROR, "unknown extended_data type {}; discarding".format(code)
             )
+            # the discarded bytes used up window all the same: give it back
+            ack = self._check_add_window(len(s))
+            if ack > 0:
+                m = Message()
+                m.add_byte(cMSG_CHANNEL_WINDOW_ADJUST)
+                m.add_int(self.remote_chanid)
+                m.add_int(ack)
+                self.transport._send_user_message(m)
             return
         self.lock.acquire()
         try:
